@@ -1,6 +1,559 @@
-//! C08: harness commands for property C08 (stub).
+//! C08: cmap-only fonts — no character is lost, duplicated or moved across clusters.
+//!
+//!   rbv c08 search --maxlen L --random N --rlen R --seed S --variants full|rot --sample K --threads T  < spec
+//!   rbv c08 one    < spec          (spec additionally has `case` lines: shapes exactly those; used by replays)
+//!
+//! spec (stdin), produced by props/C08.py from CPython `unicodedata` (the independent Unicode source):
+//!   nf <cp> <cp> ...        normal form of <cp>: full canonical decomposition (Hangul included) with the
+//!                           documented shaper decompositions applied first; only for cps where it differs
+//!   di <cp> ...             Default_Ignorable_Code_Point members that occur in any pool
+//!   pool <name> <iso|-> text=<cp,..> font=<cp,..>
+//!                           text: the characters strings are drawn from; font: text + closure (decomposition
+//!                           products, U+0020); U+25CC is added by the harness for the `with dotted circle`
+//!                           variant only.  glyph id = 1 + index in the sorted font list, advance 600.
+//!   case <pool> f25=<0|1> <fmt_req>
+//!
+//! Every shape: cluster level 0, cluster = index of the character.  The oracle (see `judge`):
+//!   * output cluster values C; input character i is owned by max{c in C : c <= i};
+//!     an input character with no owner must be a removable default ignorable;
+//!   * per owner: multiset nf(output chars) vs multiset nf(owned input chars):
+//!       missing  only default ignorables, when REMOVE (0x8) is set, or hidden as the space glyph when
+//!                neither REMOVE nor PRESERVE (0x4) is set (an extra U+0020 pays for each);
+//!       extra    only U+25CC, when the font maps it and DO_NOT_INSERT_DOTTED_CIRCLE (0x10) is clear;
+//!   * glyph 0 (.notdef) in the output or a panic is a violation.
+//! Output: `viol ...`, `case ...` (sample for the Python re-check), `stat ...` per pool, `done`.
+use crate::fontgen::{self, FontSpec};
+use crate::shp::{dir_name, fmt_req, parse_req, Req};
+use crate::util::*;
+use rustybuzz::{ttf_parser, BufferClusterLevel, BufferFlags, Direction, Face, Script, UnicodeBuffer};
+use std::collections::HashMap;
+use std::io::Read;
+use std::sync::Arc;
 
-pub fn run(_args: &[String]) {
-    eprintln!("c08: not implemented");
-    std::process::exit(2);
+#[derive(Clone, Default)]
+struct Pool {
+    name: String,
+    script: Option<String>,
+    text: Vec<u32>,
+    font: Vec<u32>,
+}
+
+#[derive(Default)]
+struct Spec {
+    nf: HashMap<u32, Vec<u32>>,
+    di: Vec<u32>,
+    pools: Vec<Pool>,
+    cases: Vec<(String, bool, Req)>,
+}
+
+fn hexlist(s: &str) -> Vec<u32> {
+    s.split(',').filter(|x| !x.is_empty()).filter_map(|x| u32::from_str_radix(x, 16).ok()).collect()
+}
+
+fn read_spec() -> Spec {
+    let mut s = String::new();
+    std::io::stdin().read_to_string(&mut s).unwrap();
+    let mut sp = Spec::default();
+    for line in s.lines() {
+        let mut it = line.split_whitespace();
+        match it.next() {
+            Some("nf") => {
+                let v: Vec<u32> = it.filter_map(|x| u32::from_str_radix(x, 16).ok()).collect();
+                if v.len() >= 2 {
+                    sp.nf.insert(v[0], v[1..].to_vec());
+                }
+            }
+            Some("di") => sp.di.extend(it.filter_map(|x| u32::from_str_radix(x, 16).ok())),
+            Some("pool") => {
+                let mut p = Pool::default();
+                p.name = it.next().unwrap_or("?").to_string();
+                let sc = it.next().unwrap_or("-");
+                p.script = if sc == "-" { None } else { Some(sc.to_string()) };
+                for tok in it {
+                    if let Some(v) = tok.strip_prefix("text=") {
+                        p.text = hexlist(v);
+                    } else if let Some(v) = tok.strip_prefix("font=") {
+                        p.font = hexlist(v);
+                    }
+                }
+                sp.pools.push(p);
+            }
+            Some("case") => {
+                let pool = it.next().unwrap_or("?").to_string();
+                let f25 = it.next().map(|x| x == "f25=1").unwrap_or(true);
+                let rest: Vec<&str> = it.collect();
+                sp.cases.push((pool, f25, parse_req(&rest.join(" "))));
+            }
+            _ => {}
+        }
+    }
+    sp.di.sort();
+    sp
+}
+
+struct Font {
+    data: Vec<u8>,
+    chars: Vec<u32>, // gid-1 -> char
+    has25cc: bool,
+}
+
+fn make_font(pool: &Pool, with25cc: bool) -> Font {
+    let mut chars: Vec<u32> = pool.font.iter().cloned().filter(|c| *c != 0x25CC).collect();
+    if with25cc {
+        chars.push(0x25CC);
+    }
+    chars.sort();
+    chars.dedup();
+    let n = chars.len() as u16 + 1;
+    let mut spec = FontSpec::basic(n);
+    spec.cmap = chars.iter().enumerate().map(|(i, c)| (*c, i as u16 + 1)).collect();
+    spec.hadv = (0..n).map(|_| 600u16).collect();
+    Font { data: fontgen::build(&spec), chars, has25cc: with25cc }
+}
+
+struct Ctx {
+    nf: HashMap<u32, Vec<u32>>,
+    di: Vec<u32>,
+}
+
+impl Ctx {
+    fn is_di(&self, c: u32) -> bool {
+        self.di.binary_search(&c).is_ok()
+    }
+    fn push_nf(&self, c: u32, out: &mut Vec<u32>) {
+        match self.nf.get(&c) {
+            Some(v) => out.extend_from_slice(v),
+            None => out.push(c),
+        }
+    }
+}
+
+fn shape(face: &Face, req: &Req) -> Result<Vec<(u32, u32)>, String> {
+    let req = req.clone();
+    // Face is not UnwindSafe by declaration only
+    let face = std::panic::AssertUnwindSafe(face);
+    catch(move || {
+        let mut b = UnicodeBuffer::new();
+        for (cp, cl) in &req.text {
+            if let Some(c) = char::from_u32(*cp) {
+                b.add(c, *cl);
+            }
+        }
+        if let Some(d) = req.dir {
+            b.set_direction(d);
+        }
+        if let Some(s) = &req.script {
+            if let Some(sc) = Script::from_iso15924_tag(ttf_parser::Tag::from_bytes_lossy(s.as_bytes())) {
+                b.set_script(sc);
+            }
+        }
+        b.set_flags(BufferFlags::from_bits_truncate(req.flags));
+        b.set_cluster_level(BufferClusterLevel::MonotoneGraphemes);
+        let gb = rustybuzz::shape(&face, &[], b);
+        gb.glyph_infos().iter().map(|g| (g.glyph_id, g.cluster)).collect::<Vec<_>>()
+    })
+}
+
+#[derive(Default, Clone)]
+struct Stat {
+    strings: u64,
+    shapes: u64,
+    dotted: u64,
+    reordered: u64,
+    decomposed: u64,
+    composed: u64,
+    merged: u64,
+    removed: u64,
+    hidden: u64,
+    viol: u64,
+}
+
+struct Verdict {
+    why: Option<String>,
+    dotted: bool,
+    reordered: bool,
+    decomposed: bool,
+    composed: bool,
+    merged: bool,
+    removed: bool,
+    hidden: bool,
+}
+
+/// The per-cluster content oracle.  `out`: (recovered char, cluster), 0 = .notdef.
+fn judge(cx: &Ctx, req: &Req, has25cc: bool, out: &[(u32, u32)]) -> Verdict {
+    let mut v = Verdict { why: None, dotted: false, reordered: false, decomposed: false, composed: false, merged: false, removed: false, hidden: false };
+    let flags = req.flags;
+    let remove = flags & 0x8 != 0;
+    let preserve = flags & 0x4 != 0;
+    let dotted_ok = has25cc && flags & 0x10 == 0;
+    if out.iter().any(|(c, _)| *c == 0) {
+        v.why = Some("notdef-in-output".into());
+        return v;
+    }
+    let mut owners: Vec<u32> = out.iter().map(|(_, k)| *k).collect();
+    owners.sort();
+    owners.dedup();
+    let n = req.text.len();
+    if owners.len() < n {
+        v.merged = true;
+    }
+    // clusters must be input clusters
+    for c in &owners {
+        if *c as usize >= n {
+            v.why = Some(format!("cluster-{}-not-an-input-cluster", c));
+            return v;
+        }
+    }
+    // orphans: input characters before the first owner
+    let first = owners.first().cloned().unwrap_or(u32::MAX);
+    for (cp, cl) in &req.text {
+        if *cl < first {
+            if cx.is_di(*cp) && !preserve {
+                v.removed = true;
+                if !remove {
+                    // without REMOVE an ignorable may only vanish when the font has no invisible glyph; ours has U+0020
+                    v.why = Some(format!("ignorable-{:X}-deleted-without-REMOVE", cp));
+                    return v;
+                }
+            } else {
+                v.why = Some(format!("input-{:X}@{}-has-no-owning-cluster", cp, cl));
+                return v;
+            }
+        }
+    }
+    let mut exp: Vec<u32> = Vec::new();
+    let mut act: Vec<u32> = Vec::new();
+    for (oi, c) in owners.iter().enumerate() {
+        let hi = owners.get(oi + 1).cloned().unwrap_or(u32::MAX);
+        exp.clear();
+        act.clear();
+        for (cp, cl) in &req.text {
+            if *cl >= *c && *cl < hi {
+                cx.push_nf(*cp, &mut exp);
+            }
+        }
+        for (ch, k) in out {
+            if *k == *c {
+                cx.push_nf(*ch, &mut act);
+            }
+        }
+        exp.sort();
+        act.sort();
+        // multiset differences
+        let mut missing: Vec<u32> = Vec::new();
+        let mut extra: Vec<u32> = Vec::new();
+        let (mut i, mut j) = (0, 0);
+        while i < exp.len() || j < act.len() {
+            if j >= act.len() || (i < exp.len() && exp[i] < act[j]) {
+                missing.push(exp[i]);
+                i += 1;
+            } else if i >= exp.len() || act[j] < exp[i] {
+                extra.push(act[j]);
+                j += 1;
+            } else {
+                i += 1;
+                j += 1;
+            }
+        }
+        let mut spaces = extra.iter().filter(|x| **x == 0x20).count();
+        for m in &missing {
+            if cx.is_di(*m) && remove && !preserve {
+                v.removed = true;
+            } else if cx.is_di(*m) && !remove && !preserve && spaces > 0 {
+                spaces -= 1;
+                v.hidden = true;
+            } else {
+                v.why = Some(format!("cluster-{}-lost-{:X}", c, m));
+                return v;
+            }
+        }
+        let hidden_spaces = extra.iter().filter(|x| **x == 0x20).count() - spaces;
+        let mut skip = hidden_spaces;
+        for x in &extra {
+            if *x == 0x20 && skip > 0 {
+                skip -= 1;
+            } else if *x == 0x25CC && dotted_ok {
+                v.dotted = true;
+            } else {
+                v.why = Some(format!("cluster-{}-gained-{:X}", c, x));
+                return v;
+            }
+        }
+    }
+    // statistics: decomposition / composition / reordering
+    let mut inm: Vec<u32> = req.text.iter().map(|(c, _)| *c).collect();
+    let mut outm: Vec<u32> = out.iter().map(|(c, _)| *c).collect();
+    let seq_in: Vec<u32> = {
+        let mut s = Vec::new();
+        for c in &inm {
+            if !cx.is_di(*c) && *c != 0x25CC && *c != 0x20 {
+                cx.push_nf(*c, &mut s);
+            }
+        }
+        s
+    };
+    let seq = |rev: bool| -> Vec<u32> {
+        let mut s = Vec::new();
+        let it: Box<dyn Iterator<Item = &u32>> = if rev { Box::new(outm.iter().rev()) } else { Box::new(outm.iter()) };
+        for c in it {
+            if !cx.is_di(*c) && *c != 0x25CC && *c != 0x20 {
+                // a decomposed character's parts appear in output order; reverse them back when reading reversed
+                let mut p = Vec::new();
+                cx.push_nf(*c, &mut p);
+                s.extend(p);
+            }
+        }
+        s
+    };
+    let inc = out.windows(2).all(|w| w[0].1 <= w[1].1);
+    let dec = out.windows(2).all(|w| w[0].1 >= w[1].1);
+    let same_fwd = seq(false) == seq_in;
+    let same_bwd = seq(true) == seq_in;
+    v.reordered = if inc && !dec {
+        !same_fwd
+    } else if dec && !inc {
+        !same_bwd
+    } else {
+        !same_fwd && !same_bwd
+    };
+    inm.sort();
+    outm.sort();
+    for c in &inm {
+        if outm.binary_search(c).is_err() && cx.nf.get(c).map(|x| x.len() > 1).unwrap_or(false) {
+            v.decomposed = true;
+        }
+    }
+    for c in &outm {
+        if inm.binary_search(c).is_err() && *c != 0x25CC && *c != 0x20 && cx.nf.get(c).map(|x| x.len() > 1).unwrap_or(false) {
+            v.composed = true;
+        }
+    }
+    v
+}
+
+fn fmt_out(out: &[(u32, u32)]) -> String {
+    let v: Vec<String> = out.iter().map(|(c, k)| format!("{:X}:{}", c, k)).collect();
+    if v.is_empty() { "-".to_string() } else { v.join(",") }
+}
+
+fn opposite(script: &Option<String>) -> Direction {
+    // forced direction: the opposite of the script's native horizontal direction
+    let rtl = matches!(script.as_deref(), Some("Arab") | Some("Hebr") | Some("Syrc") | Some("Thaa") | Some("Nkoo") | Some("Mand"));
+    if rtl { Direction::LeftToRight } else { Direction::RightToLeft }
+}
+
+struct Runner<'a> {
+    cx: &'a Ctx,
+    pool: &'a Pool,
+    fonts: [Font; 2],
+    stat: Stat,
+    lines: Vec<String>,
+    sample_every: u64,
+    viol_limit: u64,
+}
+
+impl<'a> Runner<'a> {
+    fn one(&mut self, req: &Req, f25: bool) {
+        let font = &self.fonts[f25 as usize];
+        let face = match Face::from_slice(&font.data, 0) {
+            Some(f) => f,
+            None => {
+                self.lines.push(format!("viol pool={} f25={} {} out=- why=font-rejected", self.pool.name, f25 as u8, fmt_req(req)));
+                return;
+            }
+        };
+        self.one_face(&face, req, f25);
+    }
+
+    fn one_face(&mut self, face: &Face, req: &Req, f25: bool) {
+        let font = &self.fonts[f25 as usize];
+        self.stat.shapes += 1;
+        let (out, why) = match shape(face, req) {
+            Ok(gs) => {
+                let out: Vec<(u32, u32)> = gs
+                    .iter()
+                    .map(|(g, k)| (if *g == 0 || *g as usize > font.chars.len() { 0 } else { font.chars[*g as usize - 1] }, *k))
+                    .collect();
+                let v = judge(self.cx, req, font.has25cc, &out);
+                self.stat.dotted += v.dotted as u64;
+                self.stat.reordered += v.reordered as u64;
+                self.stat.decomposed += v.decomposed as u64;
+                self.stat.composed += v.composed as u64;
+                self.stat.merged += v.merged as u64;
+                self.stat.removed += v.removed as u64;
+                self.stat.hidden += v.hidden as u64;
+                (out, v.why)
+            }
+            Err(e) => (Vec::new(), Some(format!("panic-{}", e))),
+        };
+        if let Some(w) = why {
+            self.stat.viol += 1;
+            if self.stat.viol <= self.viol_limit {
+                self.lines.push(format!("viol pool={} f25={} {} out={} why={}", self.pool.name, f25 as u8, fmt_req(req), fmt_out(&out), w));
+            }
+        } else if self.sample_every > 0 && self.stat.shapes % self.sample_every == 0 {
+            self.lines.push(format!("case pool={} f25={} {} out={}", self.pool.name, f25 as u8, fmt_req(req), fmt_out(&out)));
+        }
+    }
+
+    fn variants(&mut self, faces: &[Face; 2], text: &[u32], full: bool, salt: u64) {
+        self.stat.strings += 1;
+        let mut req = Req::default();
+        req.text = text.iter().enumerate().map(|(i, c)| (*c, i as u32)).collect();
+        let scripts = [self.pool.script.clone(), None];
+        let dirs = [None, Some(opposite(&self.pool.script))];
+        let flags = [0u32, 0x10, 0x8, 0x4];
+        let mut k = 0u64;
+        for f25 in [true, false] {
+            for fl in flags {
+                for (si, sc) in scripts.iter().enumerate() {
+                    for (di, d) in dirs.iter().enumerate() {
+                        k += 1;
+                        // rot: the plain variant of each font always, plus a rotating quarter of the rest
+                        let plain = fl == 0 && si == 0 && di == 0;
+                        if !full && !plain && (k + salt) % 5 != 0 {
+                            continue;
+                        }
+                        req.flags = fl;
+                        req.script = sc.clone();
+                        req.dir = *d;
+                        self.one_face(&faces[f25 as usize], &req, f25);
+                    }
+                }
+            }
+        }
+    }
+}
+
+fn run_pool(cx: &Ctx, pool: &Pool, maxlen: usize, nrandom: u64, rlen: u64, seed: u64, full_upto: usize, sample: u64) -> (Stat, Vec<String>) {
+    let fonts = [make_font(pool, false), make_font(pool, true)];
+    let datas = [fonts[0].data.clone(), fonts[1].data.clone()];
+    let (Some(f0), Some(f1)) = (Face::from_slice(&datas[0], 0), Face::from_slice(&datas[1], 0)) else {
+        return (Stat::default(), vec![format!("viol pool={} f25=- - out=- why=font-rejected", pool.name)]);
+    };
+    let faces = [f0, f1];
+    // expected number of shapes, for the sampling stride
+    let n = pool.text.len() as u64;
+    let mut total: u64 = 0;
+    let mut pw = 1u64;
+    for l in 1..=maxlen {
+        pw *= n;
+        total += pw * if l <= full_upto { 32 } else { 8 };
+    }
+    total += nrandom * 8;
+    let mut r = Runner { cx, pool, fonts, stat: Stat::default(), lines: Vec::new(), sample_every: if sample == 0 { 0 } else { (total / sample).max(1) }, viol_limit: 40 };
+    // exhaustive
+    let mut idx: Vec<usize> = Vec::new();
+    for l in 1..=maxlen {
+        idx.clear();
+        idx.resize(l, 0);
+        let mut text: Vec<u32> = vec![0; l];
+        let mut salt = 0u64;
+        'odo: loop {
+            for i in 0..l {
+                text[i] = pool.text[idx[i]];
+            }
+            salt += 1;
+            r.variants(&faces, &text, l <= full_upto, salt);
+            let mut p = l;
+            loop {
+                if p == 0 {
+                    break 'odo;
+                }
+                p -= 1;
+                idx[p] += 1;
+                if idx[p] < pool.text.len() {
+                    break;
+                }
+                idx[p] = 0;
+            }
+        }
+    }
+    // seeded random longer strings
+    let mut rng = Rng::new(seed ^ (pool.name.bytes().fold(0u64, |a, b| a.wrapping_mul(131).wrapping_add(b as u64))));
+    for k in 0..nrandom {
+        let l = rng.range(maxlen as u64 + 1, rlen.max(maxlen as u64 + 1)) as usize;
+        let text: Vec<u32> = (0..l).map(|_| *rng.pick(&pool.text)).collect();
+        r.variants(&faces, &text, false, k);
+    }
+    (r.stat, r.lines)
+}
+
+pub fn run(args: &[String]) {
+    quiet_panics();
+    match args.get(0).map(|s| s.as_str()) {
+        Some("search") => search(args),
+        Some("one") => one(),
+        _ => {
+            eprintln!("c08 search|one");
+            std::process::exit(2)
+        }
+    }
+}
+
+fn one() {
+    let sp = read_spec();
+    let cx = Ctx { nf: sp.nf.clone(), di: sp.di.clone() };
+    for (pname, f25, req) in &sp.cases {
+        let Some(pool) = sp.pools.iter().find(|p| &p.name == pname) else {
+            println!("viol pool={} f25={} {} out=- why=unknown-pool", pname, *f25 as u8, fmt_req(req));
+            continue;
+        };
+        let mut r = Runner { cx: &cx, pool, fonts: [make_font(pool, false), make_font(pool, true)], stat: Stat::default(), lines: Vec::new(), sample_every: 1, viol_limit: 1000 };
+        r.one(req, *f25);
+        for l in &r.lines {
+            println!("{}", l);
+        }
+    }
+    println!("done");
+}
+
+fn search(args: &[String]) {
+    let sp = read_spec();
+    let maxlen = arg_u64(args, "--maxlen", 2) as usize;
+    let nrandom = arg_u64(args, "--random", 200);
+    let rlen = arg_u64(args, "--rlen", 8);
+    let seed = arg_u64(args, "--seed", 1);
+    let full_upto = arg_u64(args, "--full-upto", 2) as usize;
+    let sample = arg_u64(args, "--sample", 40);
+    let threads = arg_u64(args, "--threads", 8).max(1) as usize;
+    let cx = Arc::new(Ctx { nf: sp.nf.clone(), di: sp.di.clone() });
+    let pools = Arc::new(sp.pools.clone());
+    let next = Arc::new(std::sync::atomic::AtomicUsize::new(0));
+    let mut hs = Vec::new();
+    for _ in 0..threads {
+        let (cx, pools, next) = (cx.clone(), pools.clone(), next.clone());
+        hs.push(std::thread::spawn(move || {
+            let mut res = Vec::new();
+            loop {
+                let i = next.fetch_add(1, std::sync::atomic::Ordering::SeqCst);
+                if i >= pools.len() {
+                    break;
+                }
+                let t0 = std::time::Instant::now();
+                let (st, lines) = run_pool(&cx, &pools[i], maxlen, nrandom, rlen, seed, full_upto, sample);
+                res.push((i, st, lines, t0.elapsed().as_millis()));
+            }
+            res
+        }));
+    }
+    let mut all = Vec::new();
+    for h in hs {
+        match h.join() {
+            Ok(v) => all.extend(v),
+            Err(_) => println!("viol pool=? f25=- - out=- why=worker-thread-died"),
+        }
+    }
+    all.sort_by_key(|x| x.0);
+    for (i, st, lines, ms) in &all {
+        for l in lines {
+            println!("{}", l);
+        }
+        println!(
+            "stat pool={} strings={} shapes={} dotted={} reordered={} decomposed={} composed={} merged={} removed={} hidden={} viol={} ms={}",
+            pools[*i].name, st.strings, st.shapes, st.dotted, st.reordered, st.decomposed, st.composed, st.merged, st.removed, st.hidden, st.viol, ms
+        );
+    }
+    let _ = dir_name(None);
+    println!("done pools={}", all.len());
 }
